@@ -424,7 +424,6 @@ func c07Ops(r *Rand, inputLen, padLen int, spec bool) []string {
 		ops = append(ops, "r", fmt.Sprintf("k%d", padLen-1-r.Intn(8)))
 	}
 	n := 4 + r.Intn(40)
-	lastWasRune := false
 	for i := 0; i < n; i++ {
 		x := r.Intn(100)
 		var op string
@@ -471,7 +470,6 @@ func c07Ops(r *Rand, inputLen, padLen int, spec bool) []string {
 			}
 		}
 		ops = append(ops, op)
-		lastWasRune = op == "r" || (lastWasRune && (op[0] == 'q' || op[0] == 'l' || op[0] == 'b'))
 	}
 	ops = append(ops, "q")
 	return ops
@@ -796,6 +794,31 @@ func c07LookaheadBattery(c *Ctx) {
 	}
 }
 
+// c07NewLitBytes: since cb62b3c newLit writes the *encoding* of the rune instead of copying its bytes out
+// of the read buffer.  Oracle = the source bytes: for every multi-byte rune that rune() returns, the literal
+// started by newLit(r) must be exactly the bytes the rune occupied in the input (an invalid byte never gets
+// here: rune() turns it into an error and returns runeEOF).
+func c07NewLitBytes(c *Ctx, input string) {
+	v := syntax.NewVerifLexer(&c07Reader{data: []byte(input)}, syntax.LangBash, "")
+	for i := 0; i <= len(input)+1; i++ {
+		r, w := v.Rune()
+		if r == syntax.VerifRuneEOF {
+			return
+		}
+		if r < 0x80 || r == syntax.VerifEscNewl {
+			continue
+		}
+		_, _, _, raw := v.NextPos()
+		v.NewLit(r)
+		lit := string(v.State().Lit)
+		if raw < 0 || int(raw)+w > len(input) || lit != input[raw:int(raw)+w] {
+			c.Fail("newlit "+hx(input)+" "+strconv.Itoa(i), fmt.Sprintf("newLit(%U) started the literal with % x, the source has % x at offset %d", r, lit, input[raw:min(int(raw)+w, len(input))], raw))
+			return
+		}
+		v.LitDrop()
+	}
+}
+
 func c07(c *Ctx) {
 	c.Rule = "tie: random byte strings over {NUL, CR, LF, CRLF, backslash, backslash-newline, backquote, $, quotes, <->, digits, " +
 		"multi-byte and invalid UTF-8}, a third padded to the 1 KiB buffer edge, × random op sequences over the byte-source primitives " +
@@ -840,6 +863,7 @@ func c07(c *Ctx) {
 				c.Case("tie/"+input+"/"+strings.Join(ops, " "), len(input) > 0, tags...)
 			}
 		}
+		c07NewLitBytes(c, input)
 		// spec stream: protocol-respecting program, any schedule, EOF by a separate read
 		sops := c07Ops(r, len(input), padLen, true)
 		scs := c07Scheds(r, len(input))
